@@ -31,6 +31,12 @@ class Engine:
         s.solver.add(cond)
     def prove(s, cond, what=''):
         s.stats['obl'] = s.stats.get('obl',0)+1
+        if getattr(s,'fresh_nra',False):
+            t0=time.time(); f=z3.Then('simplify','solve-eqs','qfnra-nlsat').solver() if getattr(s,'tactic',False) else z3.Solver(); f.set('timeout',120000)
+            f.add(*s.solver.assertions()); f.add(z3.Not(cond)); r=f.check(); s.stats['queries']+=1; s.stats['t']+=time.time()-t0
+            if r==z3.sat: s.cex.append((what, f.model(), list(s.trace))); return
+            if r!=z3.unsat: s.unknown.append(what); print('UNKNOWN (fresh)', what)
+            return
         r = s.check(z3.Not(cond))
         if r == z3.sat:
             s.cex.append((what, s.solver.model(), list(s.trace)))
@@ -79,8 +85,12 @@ class SR:  # symbolic real
     def __lt__(a,b): return a._inf(b,True) if a._inf(b,True) is not None else SB(a.e < a._o(b))
     def __ge__(a,b): return a._inf(b,False) if a._inf(b,False) is not None else SB(a.e >= a._o(b))
     def __gt__(a,b): return a._inf(b,False) if a._inf(b,False) is not None else SB(a.e > a._o(b))
-    def __eq__(a,b): return SB(a.e == a._o(b))
-    def __ne__(a,b): return SB(a.e != a._o(b))
+    def __eq__(a,b):
+        if isinstance(b,float) and b in (float('inf'),-float('inf')): return False
+        return SB(a.e == a._o(b))
+    def __ne__(a,b):
+        if isinstance(b,float) and b in (float('inf'),-float('inf')): return True
+        return SB(a.e != a._o(b))
     __hash__=None
 class SB:
     def __init__(s,e): s.e=e
